@@ -665,6 +665,460 @@ class PupSess:
             self.route(c, "after-stray-open-%s" % op["kind"])
 
 
+# ----------------------------------------------------------------------------- scheduler family
+#
+# The two families above run production transports on real threads: an interleaving of a PEER-opened channel with a local
+# open_channel() is only forced where the application gets a callback in between (check_channel_request, server mode).  The
+# peer opens that go straight to one of the transport's own handlers (client side: forwarded-tcpip -> port-forward handler,
+# x11 -> x11 handler, auth-agent@openssh.com -> agent handler) offer no such hook, and the window inside the id allocation is
+# a few bytecodes wide.  This family owns the schedule instead (vlib.sched): ONE real Transport that is never started; what
+# its thread would do with an inbound message (dispatch through Transport._handler_table / _channel_handler_table, as
+# Transport.run does) is one task, application threads calling open_channel() / Channel.close() are the other tasks.  The
+# transport's locks (Transport.lock, the channel table's lock, the accept condition) and the Events open_channel() waits on are
+# cooperative; switch points = their operations, the send points and (optionally) every source line of the allocation /
+# registration code in transport.py.  Schedules: generated preemption lists, and for small programs ALL schedules with <= 1
+# preemption.
+#
+# Oracle on the wire only: every id the transport hands out appears as the sender field of a CHANNEL_OPEN (local open) or of
+# a CHANNEL_OPEN_CONFIRMATION (peer open).  In send order, a new id must be in 24 bits and must not be in the set of ids in
+# use; an id leaves that set when an operation of the history starts closing its channel or the peer refuses the open.  Plus:
+# the Channel objects the application got (from open_channel, from the handlers) and did not close are distinct objects with
+# distinct get_id(), and open_channel returns a channel with the id its CHANNEL_OPEN carried.
+
+from vlib import sched as S  # noqa: E402
+
+SCH_TO = 3.0
+SCH_TRACED = {"_next_channel", "open_channel", "_parse_channel_open", "_parse_channel_open_success", "_parse_channel_open_failure", "_unlink_channel", "get", "put", "delete", "_queue_incoming_channel"}
+SCH_TRACED_ALLOC = {"_next_channel", "get", "put"}  # trace == "alloc": line-level switch points in the allocation / table code only
+SCH_PEER_KINDS = {"client": ["forwarded-tcpip", "x11", "auth-agent@openssh.com"], "server": ["session", "direct-tcpip"]}
+SCH_LOCAL_KINDS = {"client": ["session", "direct-tcpip"], "server": ["forwarded-tcpip", "x11"]}
+
+
+def sch_hot(tag):
+    """Yield points inside the id allocation: lines of _next_channel / of the table lookup, operations of the table's lock."""
+    if tag[0] == "line":
+        return tag[2] in ("_next_channel", "get")
+    return tag[0] in ("acquire", "release") and "channels" in str(tag[1])
+
+
+class _ThreadingShim:
+    """``threading`` for paramiko.transport while a case runs: Event() gives a cooperative event (open_channel / global_request
+    wait on one with a 0.1 s poll), everything else is the real module."""
+
+    def __init__(self, sched):
+        self._s = sched
+
+    def __getattr__(self, name):
+        return getattr(threading, name)
+
+    def Event(self):
+        return self._s.Event("transport-event")
+
+
+class SchBench:
+    def __init__(self, case, strategy):
+        import socket as _socket
+
+        import paramiko.transport as PT
+        from paramiko.message import Message
+        from paramiko.server import ServerInterface
+
+        from vlib import refssh as R
+
+        self.R, self.PT, self.Message = R, PT, Message
+        self.case = case
+        self.role = case["role"]
+        tr = case.get("trace")
+        tf = {PT.__file__: (SCH_TRACED_ALLOC if tr == "alloc" else SCH_TRACED)} if tr else None
+        self.s = S.Scheduler(strategy, trace_files=tf, max_steps=40000)
+        self.socks = _socket.socketpair()
+        t = self.t = PT.Transport(self.socks[0])
+        t.active = True
+        self.viol = []
+        self.classes = set()
+        self.nontrivial = False
+        self.inuse = {}  # local id -> how it was allocated
+        self.wire_open = {}  # task name -> id of its last CHANNEL_OPEN
+        self.pending = []  # local ids of CHANNEL_OPENs the peer has not answered yet
+        self.closes = []  # peer-side ids (recipient field) of CHANNEL_CLOSEs the transport sent and the peer has not answered
+        self.pid2cid = {}
+        self.next_pid = 700
+        self.objects = []  # [Channel, id at hand-over, closed by an op?, origin]
+        self.napps = len(case["apps"])
+        self.apps_done = 0
+        self.hot = False
+        self.in_tasks = False
+        memo = {}
+        got = S.coopify(self.s, t, memo, prefix="transport.")
+        if "lock" not in got:
+            raise peers.core.HarnessError("C23 sched family: Transport.lock is not a plain lock any more (%r)" % (got,))
+        S.coopify(self.s, t._channels, memo, prefix="channels.")
+        for name in ("_send_user_message", "_send_message", "_send_or_defer"):
+            setattr(t, name, self._send)
+        if self.role == "server":
+            class Srv(ServerInterface):
+                def check_channel_request(self, kind, chanid):
+                    return PT.OPEN_SUCCEEDED
+
+                def check_channel_direct_tcpip_request(self, chanid, origin, destination):
+                    return PT.OPEN_SUCCEEDED
+
+            t.server_mode = True
+            t.server_object = Srv()
+
+    # ------------------------------------------------------------------ the wire
+    def _send(self, data):
+        raw = data.asbytes() if hasattr(data, "asbytes") else bytes(data)
+        ptype = raw[0]
+        self.s.yield_point(("send", ptype))
+        R = self.R
+        me = self.s.current_name() or "<setup>"
+        if ptype == 90:
+            rd = R.Reader(raw[1:])
+            rd.string()
+            cid = rd.u32()
+            self.alloc(cid, "local-open", me)
+            self.wire_open[me] = cid
+            self.pending.append(cid)
+        elif ptype == 91:
+            rd = R.Reader(raw[1:])
+            pid = rd.u32()
+            cid = rd.u32()
+            self.alloc(cid, "peer-open", me)
+            self.pid2cid[pid] = cid
+        elif ptype == 97:
+            self.closes.append(R.Reader(raw[1:]).u32())
+        elif ptype == 80 and not self.in_tasks:
+            # set-up only: the peer grants the tcpip-forward request at once (what the transport thread does with the reply)
+            self.dispatch(peers.m_request_success(R.u32(4242)))
+        self.s.note(("wire", ptype, me))
+
+    def alloc(self, cid, how, who):
+        if not isinstance(cid, int) or not (0 <= cid < MAXID):
+            self.viol.append(("id-in-24-bit-space", "sch:%s" % how, "transport used id %r" % (cid,)))
+        if cid in self.inuse:
+            self.viol.append(("id-unique-among-live", "sch:%s:id-of-%s-channel" % (how, self.inuse[cid]), "id %d handed out for a %s (task %s) while ids in use are %r" % (cid, how, who, dict(self.inuse))))
+        if len(self.inuse) >= 3:
+            self.classes.add("sch:alloc-with>=3-in-use")
+        if self.hot:
+            self.nontrivial = True
+            self.classes.add("sch:alloc-after-wrap-or-jump")
+            self.hot = False
+        self.inuse[cid] = how
+
+    def dispatch(self, payload):
+        """An inbound message, handled the way Transport.run hands it to its tables."""
+        t = self.t
+        ptype = payload[0]
+        m = self.Message(payload[1:])
+        if ptype in t._handler_table:
+            t._handler_table[ptype](m)
+        elif ptype in t._channel_handler_table:
+            chan = t._channels.get(m.get_int())
+            if chan is not None:
+                t._channel_handler_table[ptype](chan, m)
+        else:
+            raise peers.core.HarnessError("C23 sched family: no handler for message type %d" % ptype)
+
+    # ------------------------------------------------------------------ handlers = what the application receives
+    def handed(self, chan, origin):
+        self.objects.append([chan, chan.get_id(), False, origin])
+
+    def setup(self):
+        t, case = self.t, self.case
+        PT = self.PT
+        PT_threading = PT.threading
+        PT.threading = _ThreadingShim(self.s)
+        try:
+            if self.role == "client":
+                t.request_port_forward("", 0, lambda chan, origin, server: self.handed(chan, "tcp-handler"))
+                # what Channel.request_x11(handler=...) / AgentRequestHandler do on their transport
+                t._set_x11_handler(lambda chan, origin: self.handed(chan, "x11-handler"))
+                t._set_forward_agent_handler(lambda chan: self.handed(chan, "agent-handler"))
+            with t.lock:
+                t._channel_counter = case["ctr"]
+            for op in case["pre"]:
+                self.do_peer(tuple(op), sequential=True)
+        finally:
+            PT.threading = PT_threading
+
+    # ------------------------------------------------------------------ operations
+    def peer_open_payload(self, kind):
+        R = self.R
+        pid = self.next_pid
+        self.next_pid += 1
+        rest = b""
+        if kind == "forwarded-tcpip":
+            rest = R.string(b"") + R.u32(4242) + R.string(b"10.9.8.7") + R.u32(4711)
+        elif kind == "x11":
+            rest = R.string(b"10.9.8.7") + R.u32(6010)
+        elif kind == "direct-tcpip":
+            rest = R.string(b"10.0.0.1") + R.u32(80) + R.string(b"10.9.8.7") + R.u32(4711)
+        return peers.m_channel_open(kind.encode(), pid, rest=rest)
+
+    def mark_hot(self):
+        if self.t._channel_counter in self.inuse:
+            self.hot = True
+
+    def established(self):
+        return [o for o in self.objects if not o[2] and not o[0].closed]
+
+    def do_peer(self, op, sequential=False):
+        k = op[0]
+        t = self.t
+        if k == "popen":
+            self.mark_hot()
+            self.dispatch(self.peer_open_payload(op[1]))
+            self.classes.add("sch:peer-open:" + op[1])
+        elif k == "pclose":
+            live = self.established()
+            if live:
+                o = live[op[1] % len(live)]
+                o[2] = True
+                self.inuse.pop(o[1], None)
+                self.dispatch(peers.m_channel_close(o[1]))
+                self.classes.add("sch:close-peer-first")
+        elif k == "jump":
+            ids = sorted(self.inuse)
+            how = op[1]
+            if how in ("live", "below-live") and not ids:
+                how = "max"
+            if how == "max":
+                v = MAXID - 1
+            elif how == "max-1":
+                v = MAXID - 2
+            else:
+                v = ids[op[2] % len(ids)]
+                if how == "below-live":
+                    v = (v - 1) % MAXID
+            with t.lock:
+                t._channel_counter = v
+            self.hot = True
+            self.classes.add("sch:jump:" + how)
+        elif k == "answer":
+            self.s.block_until(lambda: self.pending or self.apps_done >= self.napps, ("peer", "waiting-for-a-CHANNEL_OPEN"))
+            if self.pending:
+                self.answer(self.pending.pop(0), bool(op[1]))
+        elif k == "serve":
+            # the peer answers whatever is outstanding (opens: confirmation; closes: its own CLOSE) until the applications are done
+            while True:
+                self.s.block_until(lambda: self.pending or self.closes or self.apps_done >= self.napps, ("peer", "idle"))
+                if self.pending:
+                    self.answer(self.pending.pop(0), True)
+                elif self.closes:
+                    pid = self.closes.pop(0)
+                    cid = self.pid2cid.get(pid)
+                    if cid is not None:
+                        self.dispatch(peers.m_channel_close(cid))
+                else:
+                    break
+        else:
+            raise peers.core.HarnessError("bad op %r" % (op,))
+
+    def answer(self, cid, ok):
+        if ok:
+            pid = self.next_pid
+            self.next_pid += 1
+            self.pid2cid[pid] = cid
+            self.dispatch(peers.m_channel_open_confirm(cid, pid))
+            self.classes.add("sch:open-confirmed")
+        else:
+            self.inuse.pop(cid, None)
+            self.dispatch(peers.m_channel_open_failure(cid))
+            self.classes.add("sch:open-refused")
+
+    def do_app(self, op, tname, mine):
+        k = op[0]
+        t = self.t
+        if k == "open":
+            self.mark_hot()
+            kind = op[1]
+            try:
+                ch = t.open_channel(kind, ("10.1.1.1", 4242), ("10.2.2.2", 40000), timeout=SCH_TO)
+            except S.HarnessAbort:
+                raise
+            except Exception as e:
+                if isinstance(e, peers.core.HarnessError):
+                    raise
+                self.classes.add("sch:open-raised:" + type(e).__name__)
+                return
+            want = self.wire_open.get(tname)
+            if ch.get_id() != want:
+                self.viol.append(("id-unique-among-live", "sch:confirmed-open-other-id", "CHANNEL_OPEN of %s carried id %r, open_channel returned a channel with id %r" % (tname, want, ch.get_id())))
+            o = [ch, ch.get_id(), False, "open_channel:" + tname]
+            self.objects.append(o)
+            mine.append(o)
+            self.classes.add("sch:local-open:" + kind)
+        elif k == "close":
+            live = [o for o in mine if not o[2]]
+            if live:
+                o = live[op[1] % len(live)]
+                o[2] = True
+                self.inuse.pop(o[1], None)
+                o[0].close()
+                self.classes.add("sch:close-local-first")
+        else:
+            raise peers.core.HarnessError("bad op %r" % (op,))
+
+    # ------------------------------------------------------------------ run
+    def run(self):
+        case, s = self.case, self.s
+        PT = self.PT
+
+        def peer_body():
+            for op in case["peer"]:
+                self.do_peer(tuple(op))
+            self.do_peer(("serve",))
+
+        def mk(tname, ops):
+            def body():
+                mine = []
+                try:
+                    for op in ops:
+                        self.do_app(tuple(op), tname, mine)
+                finally:
+                    self.apps_done += 1
+
+            return body
+
+        s.spawn("transport", peer_body)
+        for ai, ops in enumerate(case["apps"]):
+            s.spawn("app%d" % ai, mk("app%d" % ai, ops))
+        real_threading = PT.threading
+        PT.threading = _ThreadingShim(s)
+        self.in_tasks = True
+        try:
+            with S.patch_time(s, PT):
+                res = s.run()
+        finally:
+            PT.threading = real_threading
+            self.in_tasks = False
+        return res
+
+    def judge(self, res):
+        viol = list(self.viol)
+        if res.outcome == "deadlock":
+            viol.append(("no-deadlock", "sch:" + "+".join(sorted(set(str(w[0] if isinstance(w, tuple) else w) for w in res.waits.values()))), "waits=%r" % (res.waits,)))
+        elif res.outcome == "budget":
+            viol.append(("no-termination", "sch:step-budget", "waits=%r" % (res.waits,)))
+        elif res.outcome != "ok":
+            raise peers.core.HarnessError("outcome %r" % res.outcome)
+        for name, info in res.tasks.items():
+            if info.exc is not None:
+                viol.append(("operation-raised", "sch:%s" % type(info.exc).__name__, "%s: %s" % (name, info.tb)))
+        seen = {}
+        for ch, cid, closed_by_op, origin in self.objects:
+            if closed_by_op or ch.closed:
+                continue
+            i = ch.get_id()
+            if i != cid:
+                viol.append(("id-unique-among-live", "sch:id-of-live-object-changed", "channel from %s handed out with id %d now reports %r" % (origin, cid, i)))
+            if i in seen:
+                same = seen[i][0] is ch
+                viol.append(("id-unique-among-live", "sch:two-live-handles-one-id", "%s and %s hold %s with id %d" % (seen[i][1], origin, "the SAME Channel object" if same else "two open Channel objects", i)))
+            seen[i] = (ch, origin)
+        if res.switched_in(sch_hot, preempt_only=True):
+            self.nontrivial = True
+            self.classes.add("sch:preempted-inside-id-allocation")
+        if any(sw[0] == "transport" and sch_hot(sw[3]) for sw in res.switches if sw[4]):
+            self.classes.add("sch:transport-thread-preempted-inside-id-allocation")
+        if res.switched_in(lambda tag: tag[0] == "line", preempt_only=True):
+            self.classes.add("sch:preempted-at-transport.py-line")
+        return viol
+
+    def cleanup(self):
+        t = self.t
+        t.active = False
+        try:
+            t.packetizer.close()
+        except Exception:
+            pass
+        for so in self.socks:
+            try:
+                so.close()
+            except OSError:
+                pass
+
+
+def sch_execute(ctx, case, strategy=None, extra_classes=()):
+    strat = strategy if strategy is not None else S.strategy_from_case(case["sched"], sch_hot)
+    b = SchBench(case, strat)
+    try:
+        b.setup()
+        res = b.run()
+        viol = b.judge(res)
+    finally:
+        b.cleanup()
+    if strategy is not None and isinstance(strategy, S.DFSStrategy):
+        case = dict(case)
+        case["sched"] = {"dfs": [t[2] for t in strategy.trace]}
+    ctx.case(case, b.nontrivial, sorted(b.classes) + ["sch:role-" + case["role"]] + list(extra_classes))
+    seen = set()
+    for clause, bucket, detail in viol:
+        if (clause, bucket) not in seen:
+            seen.add((clause, bucket))
+            ctx.violation(clause, bucket, case, detail)
+
+
+def _sch_case(role):
+    pk = st.sampled_from(SCH_PEER_KINDS[role])
+    lk = st.sampled_from(SCH_LOCAL_KINDS[role])
+    popen = st.tuples(st.just("popen"), pk)
+    jump = st.tuples(st.just("jump"), st.sampled_from(["max", "max-1", "live", "live", "below-live"]), st.integers(0, 7))
+    pre_op = st.one_of(popen, popen.map(lambda v: v), st.tuples(st.just("pclose"), st.integers(0, 7)), jump)
+    peer_op = st.one_of(popen, popen.map(lambda v: v), popen.map(lambda v: (v)), st.tuples(st.just("answer"), st.sampled_from([True, True, False])), st.tuples(st.just("pclose"), st.integers(0, 7)))
+    app_op = st.one_of(st.tuples(st.just("open"), lk), st.tuples(st.just("open"), lk).map(lambda v: v), st.tuples(st.just("close"), st.integers(0, 3)))
+    app = st.tuples(st.tuples(st.just("open"), lk), st.lists(app_op, max_size=2)).map(lambda t: [t[0]] + list(t[1]))
+    return st.fixed_dictionaries(
+        {
+            "fam": st.just("sch"),
+            "role": st.just(role),
+            "ctr": st.sampled_from(PRESETS + [5]),
+            "pre": st.lists(pre_op, max_size=5),
+            "peer": st.lists(peer_op, min_size=1, max_size=3),
+            "apps": st.lists(app, min_size=1, max_size=2),
+            "sched": S.schedule_strategy(max_pre=3, max_gap=70, max_forced=8, max_hot=2, hot_range=16),
+            "trace": st.sampled_from([False, "alloc", True]),
+        }
+    )
+
+
+sch_case_st = st.sampled_from(["client", "client", "server"]).flatmap(_sch_case)
+
+
+def sch_dfs_programs(trace="alloc"):
+    """Small programs: one peer open of each kind (per role) || one local open, from a fresh counter and from a counter that was
+    moved onto a run of live ids."""
+    progs = []
+    for role in ("client", "server"):
+        for pk in SCH_PEER_KINDS[role]:
+            for pre, ctr in (([], 0), ([["popen", pk], ["popen", pk], ["jump", "live", 0]], MAXID - 1)):
+                progs.append({"fam": "sch", "role": role, "ctr": ctr, "pre": pre, "peer": [["popen", pk]], "apps": [[["open", SCH_LOCAL_KINDS[role][0]]]], "sched": None, "trace": trace})
+    return progs
+
+
+def sch_run_dfs(ctx, programs, k, limit, label):
+    complete = True
+    for prog in programs:
+        if ctx.out_of_time():
+            return False
+
+        def one(strategy, prog=prog):
+            sch_execute(ctx, dict(prog), strategy=strategy, extra_classes=("sch:dfs-" + label,))
+
+        gen = S.enumerate_schedules(one, k, limit=limit)
+        while True:
+            try:
+                next(gen)
+            except StopIteration as e:
+                if not e.value:
+                    complete = False
+                    ctx.inconc("sch-dfs-program-truncated-" + label)
+                break
+        ctx.count("sch:dfs-programs-" + label)
+    return complete
+
+
 def run(ctx):
     ctx.set_budget(85, 780)
     ctx.assume("counter jump rule: moving _channel_counter stands for the 2^24 opens it would take to get there; every value is reachable with the modelled channels still open")
@@ -812,9 +1266,19 @@ def run(ctx):
             ctx.inconc("budget-hit-while-shrinking" if ctx.budget_hit else "failure-not-reproduced-on-re-execution")
             if ctx._last_fail is not None and ctx._last_fail[0] not in ctx.unknown and ctx._last_fail[0] not in ctx.known_hits:
                 ctx._record_unknown(*ctx._last_fail)
+    # scheduler family (deterministic): generated programs + schedules, then all schedules with few preemptions of small programs
+    ctx.explore(sch_case_st, lambda c: sch_execute(ctx, c), ctx.scale(600, 8000), seed_offset=7)
+    if ctx.tier == "thorough":
+        sch_run_dfs(ctx, sch_dfs_programs("alloc")[ctx.worker :: ctx.nworkers], 2, 300000, "k2-alloc-lines")
+        sch_run_dfs(ctx, sch_dfs_programs(True)[ctx.worker :: ctx.nworkers], 1, 300000, "k1-all-lines")
+    else:
+        sch_run_dfs(ctx, sch_dfs_programs("alloc"), 1, 2000, "k1-alloc-lines")
 
 
 def replay(ctx, case):
+    if case.get("fam") == "sch":
+        sch_execute(ctx, case)
+        return
     ops = case["ops"]
     if ops[0].get("fam") == "pup":
         s = PupSess(ctx, ops[0]["role"], ops[0]["ctr"])
